@@ -91,8 +91,13 @@ pub struct Snap {
     pub supply: u128, pub lp: Vec<u128>, pub col: [u128; 2], pub users: Vec<[u128; 2]>,
 }
 
-pub fn snap(w: &PairWorld) -> Snap {
-    let pool = w.query_pool().unwrap();
+pub fn snap(w: &PairWorld) -> Snap { try_snap(w).expect("Pool query") }
+/// None when the pair's Pool query fails (it must answer in every reachable state)
+pub fn try_snap(w: &PairWorld) -> Option<Snap> {
+    let pool = w.query_pool().ok()?;
+    Some(snap_with(w, pool))
+}
+fn snap_with(w: &PairWorld, pool: pair::PoolResponse) -> Snap {
     let who = |i: usize| -> &str { if i == 0 { w.pair.as_str() } else { ACCTS[i] } };
     Snap {
         bal: [w.pool_bal(0), w.pool_bal(1)],
@@ -154,9 +159,12 @@ pub fn exec(w: &mut PairWorld, op: &POp) -> Outcome<AppResponse> {
         POp::BadFundsSwap { who, dir, declared, sent } => {
             let i = *dir as usize; let pair = w.pair.clone();
             let denom = match &w.assets[i] { white_whale_std::pool_network::asset::AssetInfo::NativeToken { denom } => denom.clone(), _ => DENOMS[3].to_string() };
+            // declared == attached marks the other malformation: the amounts agree, but the offer (and the coins) are in a denom that is the
+            // pool asset's name in UPPER CASE - a different bank denom, which is not the pool's asset
+            let (info, denom) = if sent == declared { (native(&denom.to_uppercase()), denom.to_uppercase()) } else { (w.assets[i].clone(), denom) };
             let funds = if *sent > 0 { vec![cosmwasm_std::coin(*sent, denom)] } else { vec![] };
             cw_multi_test::Executor::execute_contract(&mut w.app, cosmwasm_std::Addr::unchecked(ACCTS[*who]), pair,
-                &pair::ExecuteMsg::Swap { offer_asset: white_whale_std::pool_network::asset::Asset { info: w.assets[i].clone(), amount: Uint128::new(*declared) }, belief_price: None, max_spread: Some(dec(DEC / 2)), to: None }, &funds)
+                &pair::ExecuteMsg::Swap { offer_asset: white_whale_std::pool_network::asset::Asset { info, amount: Uint128::new(*declared) }, belief_price: None, max_spread: Some(dec(DEC / 2)), to: None }, &funds)
         }
         POp::BadFundsProvide { who, d0, d1, variant } => {
             if *variant == 0 {
@@ -209,7 +217,10 @@ pub fn run_case(out: &mut Out, prop: &str, case: &PairCase) -> Option<CaseResult
         // quote before a swap (C14)
         let sim = if let POp::Swap { dir, x, .. } = op { Some(w.simulate(*dir as usize, *x)) } else { None };
         let r = exec(&mut w, op);
-        let mut cur = snap(&w);
+        let mut cur = match try_snap(&w) { Some(s) => s, None => {
+            out.monitor_fail(prop, "the pair's Pool query fails in a state the history reached (reported reserves must exist and be backed)", replay(k, "pool query"));
+            break;
+        } };
         // `col` = what the collector received FROM COLLECTIONS: swap proceeds addressed to the collector are kept apart
         for i in 0..2 { cur.col[i] -= col_in[i]; }
         let mut to_collector = 0u128;
@@ -253,6 +264,11 @@ pub fn run_case(out: &mut Out, prop: &str, case: &PairCase) -> Option<CaseResult
 
                 // ---------------- monitors ----------------
                 out.monitor_evals += 1;
+                // entries whose declared and attached assets disagree (or that come from a foreign token / the wrong entry point) are refused:
+                // an accepted one prices or pays on amounts that never arrived (or keeps a surplus the quote knew nothing of)
+                if matches!(op, POp::BadFundsSwap { .. } | POp::BadFundsProvide { .. } | POp::ForeignHookSwap { .. } | POp::TokenViaNativeSwap { .. } | POp::WithdrawDirect { .. }) {
+                    out.monitor_fail(prop, &format!("a malformed entry was accepted: {:?}", op), replay(k, "malformed entry"));
+                }
                 let (s0, s1) = (prev.supply, cur.supply);
                 if prop == "C01" {
                     for i in 0..2 {
@@ -453,7 +469,7 @@ pub fn gen_case(rng: &mut Rng, len: usize, bias: &Bias) -> PairCase {
                 4 | 5 => { let small = rng.chance(1, 2);
                            let d = if small { 1000 + rng.below128(100_000) } else { magnitude(rng, 60).max(1) };
                            POp::BadFundsProvide { who, d0: d, d1: if rng.chance(1, 2) { d } else { 1 + rng.below128(d.max(2)) }, variant: 1 + rng.below(4) as u8 } }
-                0 if !kinds[dirn as usize] => { let d = 1000 + rng.below128(1_000_000); POp::BadFundsSwap { who, dir: dirn, declared: d, sent: if rng.chance(1, 2) { d - 1 } else { d + 1 } } }
+                0 if !kinds[dirn as usize] => { let d = 1000 + rng.below128(1_000_000); POp::BadFundsSwap { who, dir: dirn, declared: d, sent: match rng.below(3) { 0 => d - 1, 1 => d + 1, _ => d } } }
                 1 if !kinds[0] || !kinds[1] => POp::BadFundsProvide { who, d0: 1000 + rng.below128(100_000), d1: 1000 + rng.below128(100_000), variant: 0 },
                 2 => POp::ForeignHookSwap { who, x: rng.below128(1_000_000) },
                 _ => POp::TokenViaNativeSwap { who, dir: dirn, x: rng.below128(1_000_000) },
@@ -624,6 +640,33 @@ pub fn threshold_corpus() -> Vec<PairCase> {
                 POp::WithdrawDirect { who: 4, denom: 0, a: 500 },
             ]});
         }
+    }
+    // every malformed entry once, on native and mixed pools with liquidity and a pending fee: refused, nothing changes
+    for kinds in [[false, false], [false, true], [true, false]] {
+        let ms = Some(DEC / 2);
+        let mut ops = vec![
+            POp::Provide { who: 1, d0: 5_000_000_000, d1: 4_000_000_000, tol: None, receiver: None },
+            POp::Swap { who: 2, dir: false, x: 30_000_000, belief: None, max_spread: ms, to: None }];
+        // (declared / attached mismatches exist for native offers only)
+        for dir in [false, true] { if !kinds[dir as usize] {
+            ops.push(POp::BadFundsSwap { who: 2, dir, declared: 1_000_000, sent: 1_000_001 });
+            ops.push(POp::BadFundsSwap { who: 2, dir, declared: 1_000_000, sent: 999_999 });
+            ops.push(POp::BadFundsSwap { who: 3, dir, declared: 5_000, sent: 50_000 });
+            ops.push(POp::BadFundsSwap { who: 3, dir, declared: 700_000, sent: 700_000 });      // UPPER-CASE denom
+        } }
+        ops.extend(vec![
+            POp::BadFundsProvide { who: 3, d0: 70_000, d1: 56_000, variant: 0 },
+            POp::BadFundsProvide { who: 3, d0: 70_000, d1: 70_000, variant: 1 },
+            POp::BadFundsProvide { who: 3, d0: 70_000, d1: 70_000, variant: 2 },
+            POp::BadFundsProvide { who: 4, d0: 70_000, d1: 56_000, variant: 3 },
+            POp::BadFundsProvide { who: 4, d0: 70_000, d1: 56_000, variant: 4 },
+            POp::ForeignHookSwap { who: 2, x: 1_000_000 },
+            POp::TokenViaNativeSwap { who: 2, dir: false, x: 1_000_000 },
+            POp::TokenViaNativeSwap { who: 2, dir: true, x: 1_000_000 },
+            POp::Swap { who: 1, dir: true, x: 20_000_000, belief: None, max_spread: ms, to: Some(TO_COLLECTOR) },
+            POp::Withdraw { who: 1, a: 1_000_000 },
+        ]);
+        v.push(PairCase { kinds, fab: false, decs: [6, 8], fees: (DEC / 1000, 3 * DEC / 1000, DEC / 500), ops });
     }
     v
 }
